@@ -320,13 +320,37 @@ def _factory_site_ok(fn: FunctionInfo, call: ast.Call, tcv: Optional[ast.expr], 
     if not op_ok:
         return False, f"time component '{op}' is not the drawn operation"
     allowed_globals = {"ChannelIdentifier", "QubitChannel"}
-    for nm in _names(idv):
-        if nm == op or nm in allowed_globals:
-            continue
-        if nm in binders and _names(binders[nm]) <= {op}:
-            continue
-        return False, f"identifier {ast.unparse(idv)} uses '{nm}', which is not derived from the drawn operation"
-    if op not in _names(idv) and not any(nm in binders and _names(binders[nm]) <= {op} for nm in _names(idv)):
+    # local names bound once by a plain assignment are what they were assigned (``channel = ChannelIdentifier(_id=qubit_index, ..)``)
+    assigned: Dict[str, List[ast.expr]] = {}
+    for n in ast.walk(fn.node):
+        if isinstance(n, (ast.Assign, ast.AnnAssign)) and n.value is not None:
+            for t in (n.targets if isinstance(n, ast.Assign) else [n.target]):
+                if isinstance(t, ast.Name):
+                    assigned.setdefault(t.id, []).append(n.value)
+    uses_op = [False]
+
+    def derived(e: ast.AST, depth: int = 0) -> Optional[str]:
+        """None when every name in ``e`` comes from the drawn operation (or is an allowed global); otherwise the offending name"""
+        for nm in sorted(_names(e)):
+            if nm == op:
+                uses_op[0] = True
+                continue
+            if nm in allowed_globals:
+                continue
+            if nm in binders and _names(binders[nm]) <= {op}:
+                uses_op[0] = True
+                continue
+            if nm in assigned and len(assigned[nm]) == 1 and nm not in params and depth < 4:
+                bad_ = derived(assigned[nm][0], depth + 1)
+                if bad_ is None:
+                    continue
+                return bad_
+            return nm
+        return None
+    bad = derived(idv)
+    if bad is not None:
+        return False, f"identifier {ast.unparse(idv)} uses '{bad}', which is not derived from the drawn operation"
+    if not uses_op[0]:
         return False, f"identifier {ast.unparse(idv)} does not come from the drawn operation"
     return True, ""
 
